@@ -122,7 +122,7 @@ class DefGen:
                     elif ty == "bool":
                         f["default"] = r.choice(["true", "false"])
                     elif ty == "string":
-                        f["default"] = r.choice(["", "abc", "null"]) if "nullableVersions" in f else r.choice(["", "abc"])
+                        f["default"] = r.choice(["", "abc", "null", "http://localhost:8080"]) if "nullableVersions" in f else r.choice(["", "abc", "http://localhost:8080"])
                         if f["default"] == "null":
                             f["nullableVersions"] = f["versions"]      # null default needs nullability wherever present
                     elif ty in ("bytes", "records") and "nullableVersions" in f:
